@@ -373,8 +373,9 @@ EnterSolWait(s, series, cont) ==
 
 \* ---- controls: two object sets.  "a" = one CROB at index 1 (handler answers SUCCESS),
 \*      "b" = one CROB at index 2 (handler answers NOT_SUPPORTED to select)
-CtlIx(ob) == IF ob = "a" THEN 1 ELSE 2
-SelStatus(ob) == IF ob = "a" THEN 0 ELSE 4
+\*      "a2" = the same CROB at index 1 encoded with a two-byte index prefix (different bytes)
+CtlIx(ob) == IF ob \in {"a", "a2"} THEN 1 ELSE 2
+SelStatus(ob) == IF ob \in {"a", "a2"} THEN 0 ELSE 4
 CtlObj(ob, st) == [g |-> 12, v |-> 1, ix |-> CtlIx(ob), ty |-> "", ev |-> FALSE, val |-> "",
                    fl |-> -1, tm |-> "", tq |-> "", st |-> st]
 \* callback arguments: index, control code, count, on-time, off-time (, operate type 1 sbo 2 do 3 dona)
